@@ -103,7 +103,8 @@ def worker(job):
             out = drv.call("get_many", [B.oid_text(o) for o in c["oids"]])
             exp = ("ok", {B.oid_text(o): v["py"] for o, v in c["vbs"] if v["kind"] != "Null"})
         else:
-            args = (B.oid_text(c["base"]),) if op == "getnext" else (B.oid_text(c["base"]), state["rng"].choice([1, 5, 20, 50]))
+            base_txt = M.spell(state["rng"], c["base"], 0.3)   # the caller's spelling of the base must not show in the keys
+            args = (base_txt,) if op == "getnext" else (base_txt, state["rng"].choice([1, 5, 20, 50]))
             out = drv.call(op, *args, limit=200)
             exp = ("ok", [(B.oid_text(o), v["py"]) for o, v in c["vbs"]])
         res["cases"] += 1
